@@ -620,8 +620,7 @@ def run(tier: str, seed: int) -> int:
         tasks.append(("c05.lex.number", dict(target=target), None, ()))
     for first in range(len(DOC_ORDER)):
         tasks.append(("c05.priority", dict(n=2, first=first), None, ()))
-        if th or first % 3 == seed % 3 or True:
-            tasks.append(("c05.priority", dict(n=3, first=first), None, ()))
+        tasks.append(("c05.priority", dict(n=3, first=first), None, ()))
     stats = parallel(tasks, explore_task)
     confirm_violations(stats)
     return finish(
